@@ -1,7 +1,7 @@
 """Property id -> check function."""
 import json
 
-from . import props_value, props_obs, props_msg
+from . import props_value, props_obs, props_msg, props_decl
 
 CHECKS = {
     "C01": props_value.check_C01,
@@ -9,6 +9,7 @@ CHECKS = {
     "C04": props_obs.check_C04,
     "C06": props_obs.check_C06,
     "C07": props_value.check_C07,
+    "C08": props_decl.check_C08,
     "C10": props_obs.check_C10,
     "C11": props_obs.check_C11,
     "C12": props_obs.check_C12,
